@@ -333,8 +333,9 @@ def _locate_droplets_in_mask_cylindrical(mask: ScalarField) -> Emulsion:
 
             _logger.info("Kept %d central droplets.", len(droplets))
 
-            # filter overlapping droplets (e.g. due to duplicates)
-            droplets.remove_overlapping()
+            # filter overlapping droplets (e.g. due to duplicates), also across the
+            # periodic boundary
+            droplets.remove_overlapping(grid=grid)
             return droplets
 
     # simply locate droplets in the mask
